@@ -24,7 +24,7 @@ import (
 // ends for a tape-chosen reason. Registered twice: C01 judges what every client read,
 // C03 judges the release of everything when the stream ended.
 func init() {
-	for _, prop := range []string{"C01", "C03"} {
+	for _, prop := range []string{"C01", "C03", "C04"} {
 		prop := prop
 		d := &Def{
 			Prop: prop, Name: "service", Level: "exploration",
@@ -40,7 +40,13 @@ func init() {
 				"packets replayed from the GOP cache (published before the attach) are only required to be published packets, in order, at most once",
 			},
 		}
-		if prop == "C01" {
+		if prop == "C04" {
+			d.Rule = "same scenario with at least one RTSP/TCP or HTTP-FLV client that stops reading early (2 KiB window: its delivery goroutine blocks in a write for the rest of the run); " +
+				"the publisher is never held up (it hands over every packet on schedule) and every other client still receives everything published after its PLAY answer, in order, once (the C01 rules, reported as C04/other-client-*). " +
+				"distinct = decision-sequence hash; non-trivial = at least one pre-emption"
+			d.RequiredProbes = []string{"fan.stalled-client-present", "fan.complete-run-checked", "fan.publisher-on-schedule"}
+			d.Assumptions = append(d.Assumptions, "the stalled client's own backlog bound (1000 packets + one GOP) is the subject of C04/media; volumes here stay far below it")
+		} else if prop == "C01" {
 			d.Rule = "one run = 1 publisher (real RTSP/TCP record session or harness stream), 2-5 consumers over {rtsp-tcp, rtsp-udp, rtsp-multicast, ws-rtsp, wsp, http-flv, ws-flv} joining after tape-chosen delays, some leaving early, 30-90 packets (video/audio/RTCP, 20..20000 bytes); " +
 				"each RTP client's frames per channel map to strictly increasing published indices with byte-identical payloads, and every packet published after its PLAY answer arrives (to the end, or to its departure); FLV clients: valid FLV whose NAL/AAC payloads are published units in order, at most once. " +
 				"distinct = decision-sequence hash; non-trivial = at least one pre-emption"
@@ -104,6 +110,14 @@ func buildSvcFan(tier string, prop string) sim.Scenario {
 
 	main := func(w *sim.World) {
 		w.PanicClass = prop + "/panic"
+		if prop == "C04" {
+			w.ClassRewrite = func(class string) string {
+				if strings.HasPrefix(class, "C01/") {
+					return "C04/other-client-" + strings.TrimPrefix(class, "C01/")
+				}
+				return class
+			}
+		}
 		tp := w.Tape
 		cacheGop := tp.Bool()
 		sw = newSvcWorld(w, false, cacheGop, []*auth.User{{Name: "admin", Password: "admin", Admin: true}}, nil)
@@ -142,6 +156,15 @@ func buildSvcFan(tier string, prop string) sim.Scenario {
 			}
 			cons = append(cons, c)
 			w.Probe("fan.kind." + c.kind)
+		}
+		if prop == "C04" { // the first client stops reading early
+			c := cons[0]
+			if c.kind != "tcp" && c.kind != "flv" {
+				c.kind = []string{"tcp", "flv"}[tp.Choose(2)]
+			}
+			c.joinDelay, c.leaveAfter, c.dataOnly, c.pauseFirst = time.Duration(tp.Choose(int(span/time.Millisecond)/3+1))*time.Millisecond, 0, false, false
+			c.stallAfter = time.Duration(1+tp.Choose(20)) * time.Millisecond
+			w.Probe("fan.stalled-client-present")
 		}
 		endCauses := []string{"disconnect", "teardown", "replace", "delete", "shutdown", "reset-mid-frame"}
 		if !realPusher {
@@ -219,6 +242,7 @@ func buildSvcFan(tier string, prop string) sim.Scenario {
 		pubN := func() int { pmu.Lock(); defer pmu.Unlock(); return len(pubs) }
 		var pwg sync.WaitGroup
 		pwg.Add(1)
+		pubStart := time.Now()
 		w.Go("pub", func() {
 			defer pwg.Done()
 			vseq, aseq := uint16(1), uint16(1)
@@ -359,6 +383,13 @@ func buildSvcFan(tier string, prop string) sim.Scenario {
 			return true
 		}
 		pwg.Wait()
+		if prop == "C04" {
+			if took := time.Since(pubStart); took > span+50*time.Millisecond {
+				w.Fail("C04/publisher-delayed", "handing over %d packets at %v intervals took the publisher %v while a client had stopped reading: the publisher was held up", nPk, gap, took)
+				return
+			}
+			w.Probe("fan.publisher-on-schedule")
+		}
 		w.Sleep(time.Second)
 		sample()
 		if w.Failed() {
@@ -658,7 +689,7 @@ func buildSvcFan(tier string, prop string) sim.Scenario {
 				return
 			}
 		}
-		if deferredClass != "" {
+		if deferredClass != "" && prop == "C01" {
 			w.Fail(deferredClass, "%s", deferredMsg)
 		}
 	}
